@@ -749,6 +749,7 @@ func runC12(w *World) *Result {
 	}
 	c12Pos(w, r)
 	c12Newlines(w, r)
+	c12CloseAfterNewline(w, r)
 	c12EOF(w, r)
 	SignRule(w, r, "R-C12-sign")
 	return r
@@ -2067,5 +2068,202 @@ func IntLiteralRule(w *World, r *Result, rule string) {
 	}
 	if n == 0 {
 		r.Bad(rule, "intliteral:none", "-", "no construction of an integer literal from token text found")
+	}
+}
+
+// c12CloseAfterNewline (R-C12-nl, clause "close"): where a token decision accepts both a
+// closing bracket and NEWLINE as alternatives, the NEWLINE alternative leads — after any
+// run of further newlines — to a decision that still accepts the closing bracket. A NEWLINE
+// alternative that goes straight on to "the next element" makes the bracket unacceptable
+// after a blank or comment-only line, although it is accepted directly after the last
+// element: acceptance would depend on layout.
+func c12CloseAfterNewline(w *World, r *Result) {
+	rule := "R-C12-nl"
+	lf, err := BuildLexFacts(w)
+	if err != nil {
+		return
+	}
+	ppkg := w.Pkgs["parser"].Types
+	isTokenCall := func(v ssa.Value) bool {
+		c, ok := v.(*ssa.Call)
+		if !ok {
+			return false
+		}
+		n, ok := c.Type().(*types.Named)
+		return ok && n.Obj().Name() == "Token" && n.Obj().Pkg() == w.Pkgs["lexer"].Types
+	}
+	// newline skippers: parser functions whose token decisions test NEWLINE only
+	skipper := map[*ssa.Function]bool{}
+	for _, fn := range w.Funcs("parser") {
+		if fn.Signature.Results().Len() != 0 {
+			continue
+		}
+		only, any := true, false
+		for _, b := range fn.Blocks {
+			for _, ins := range b.Instrs {
+				if v, ok := ins.(ssa.Value); ok && isTokenCall(v) {
+					cs := constantsTestedOn(w, lf, v)
+					for k := range cs {
+						any = true
+						if k != "NEWLINE" {
+							only = false
+						}
+					}
+				}
+			}
+		}
+		if only && any {
+			skipper[fn] = true
+		}
+	}
+	closing := func(cs map[string]bool) []string {
+		var out []string
+		for k := range cs {
+			if strings.HasPrefix(k, "CLOSING_") {
+				out = append(out, k)
+			}
+		}
+		sort.Strings(out)
+		return out
+	}
+	n := 0
+	for _, fn := range w.Funcs("parser") {
+		perFn := 0
+		for _, b := range fn.Blocks {
+			for _, ins := range b.Instrs {
+				tok, ok := ins.(*ssa.Call)
+				if !ok || !isTokenCall(tok) {
+					continue
+				}
+				cs := constantsTestedOn(w, lf, tok)
+				cl := closing(cs)
+				if !cs["NEWLINE"] || len(cl) == 0 {
+					continue
+				}
+				// the successor taken for NEWLINE
+				var nlSuccs []*ssa.BasicBlock
+				for _, blk := range fn.Blocks {
+					cnd, neg := condOf(blk)
+					if cnd == nil {
+						continue
+					}
+					hit := false
+					switch c := cnd.(type) {
+					case *ssa.BinOp:
+						if c.Op != token.EQL && c.Op != token.NEQ {
+							continue
+						}
+						name, isK := w.tokenTypeConst(c.Y, lf)
+						tv, isT := typeCallToken(w, c.X)
+						if isK && isT && name == "NEWLINE" && tv == ssa.Value(tok) {
+							hit = true
+							if c.Op == token.NEQ {
+								neg = !neg
+							}
+						}
+					case *ssa.Call:
+						if len(c.Call.Args) == 2 {
+							if tv, isT := typeCallToken(w, c.Call.Args[1]); isT && tv == ssa.Value(tok) {
+								for _, nm := range w.listConstants(c.Call.Args[0], lf) {
+									if nm == "NEWLINE" {
+										hit = true
+									}
+								}
+							}
+						}
+					}
+					if !hit {
+						continue
+					}
+					if neg {
+						nlSuccs = append(nlSuccs, blk.Succs[1])
+					} else {
+						nlSuccs = append(nlSuccs, blk.Succs[0])
+					}
+				}
+				if len(nlSuccs) == 0 {
+					continue
+				}
+				n++
+				perFn++
+				key := fmt.Sprintf("nl:close:%s#%d", FuncName(fn), perFn)
+				pos := w.Pos(tok.Pos())
+				// walk forward from the NEWLINE alternative to the next decision
+				bad := ""
+				type item struct {
+					b *ssa.BasicBlock
+					i int
+				}
+				seen := map[*ssa.BasicBlock]bool{}
+				var queue []item
+				for _, s := range nlSuccs {
+					queue = append(queue, item{s, 0})
+					seen[s] = true
+				}
+				for len(queue) > 0 && bad == "" {
+					it := queue[0]
+					queue = queue[1:]
+					stopped := false
+					for i := it.i; i < len(it.b.Instrs) && !stopped; i++ {
+						c, ok := it.b.Instrs[i].(*ssa.Call)
+						if !ok {
+							continue
+						}
+						if c == tok {
+							stopped = true // back at the same decision
+							break
+						}
+						if isTokenCall(c) {
+							cs2 := constantsTestedOn(w, lf, c)
+							if len(cs2) == 0 {
+								continue // consumed without a decision (the NEWLINE itself)
+							}
+							if len(cs2) == 1 && cs2["NEWLINE"] {
+								continue // a run of further newlines is skipped here
+							}
+							for _, k := range cl {
+								if !cs2[k] {
+									bad = fmt.Sprintf("after a NEWLINE the next decision (%s, %s) accepts %v but not %s", FuncName(fn), w.Pos(c.Pos()), keys(cs2), k)
+								}
+							}
+							stopped = true
+							break
+						}
+						callee := c.Call.StaticCallee()
+						if callee == nil || pkgOf(callee) != ppkg || callee.Blocks == nil {
+							continue
+						}
+						if skipper[callee] {
+							continue
+						}
+						if cs2, where, ok := nextTokenDecision(w, lf, callee, callee.Blocks[0], 0, 1, map[*ssa.BasicBlock]bool{}); ok {
+							for _, k := range cl {
+								if !cs2[k] {
+									bad = fmt.Sprintf("after a NEWLINE the parser goes on to %s, whose first decision accepts %v but not %s", where, keys(cs2), k)
+								}
+							}
+							stopped = true
+						}
+					}
+					if stopped {
+						continue
+					}
+					for _, sc := range it.b.Succs {
+						if !seen[sc] {
+							seen[sc] = true
+							queue = append(queue, item{sc, 0})
+						}
+					}
+				}
+				if bad != "" {
+					r.Bad(rule, key, pos, fmt.Sprintf("the decision accepts %v directly, and NEWLINE as an alternative, but %s: a closing bracket that is accepted right after the last element is rejected after a blank or comment-only line", cl, bad))
+				} else {
+					r.Ok(rule, key, pos, fmt.Sprintf("the NEWLINE alternative leads back to a decision that accepts %v", cl))
+				}
+			}
+		}
+	}
+	if n == 0 {
+		r.Triv(rule, "nl:close:none", "-", "no token decision offers both a closing bracket and NEWLINE as alternatives")
 	}
 }
